@@ -11,6 +11,7 @@ set or non-set operands of the in-place operators), and the item validator
 argument).
 -/
 import TraitsVerif.Lemmas.SetStep
+import TraitsVerif.Lemmas.PyLMapSet
 import TraitsVerif.Py.Dict
 import TraitsVerif.Generated.Mutators
 namespace TraitsVerif.Props.C07
@@ -391,6 +392,64 @@ example :
   have h : valAll (fun _ x => (.ok x : Except Exc Int)) 0 (symRaw ([1, 2, 3] : PSet Int) [2, 5]) = .ok [5] := by
     decide
   rw [h] at hws; cases hws; decide
+
+/-! ### Tie to the source by translation: the model is the interpreted source -/
+
+/-- **C07_step_is_source.**  For every item validator, every set and every
+operation with its operands, the hand-written `TraitSet.step` is exactly what the
+interpreter of `Model/PyLMap.lean` computes on the method body translated from
+the working tree (`Generated/MapSetProg.lean`, `translate/pylmap.py`): same
+members (as stored), same return value (the in-place operators return the
+receiver, `pop` the member), same notifications, same exception — and on an
+exception the same (unchanged) members and no notification. -/
+theorem C07_step_is_source (v : Callback α α) (s : PSet α) (op : Op α) :
+    Model.PyLM.S.runTraitSetOp Generated.traitSetProg v s op
+      = Model.PyLM.S.summaryOfStep s op (TraitSet.step v s op) :=
+  Lemmas.PyLMS.ts_step_is_source v s op
+
+/-- **C07_source_atomic.**  Atomicity read off the source: whenever the
+interpreted source raises (including the `TypeError` Python raises when an
+in-place operator returns `NotImplemented`), the set is unchanged and nobody has
+been notified. -/
+theorem C07_source_atomic (v : Callback α α) (s : PSet α) (op : Op α) (e : Exc)
+    (items : PSet α) (evs : List (SEvent α))
+    (h : Model.PyLM.S.runTraitSetOp Generated.traitSetProg v s op = .raised e items evs) :
+    items = s ∧ evs = [] := by
+  rw [C07_step_is_source] at h
+  cases hs : TraitSet.step v s op with
+  | ok o => simp [Model.PyLM.S.summaryOfStep, hs] at h
+  | error e' =>
+    simp only [Model.PyLM.S.summaryOfStep, hs, Model.PyLM.S.Summary.raised.injEq] at h
+    exact ⟨h.2.1.symm, h.2.2.symm⟩
+
+/-- **C07_source_events.**  The source notifies at most once per call, and
+exactly with the model's `(removed, added)`; members and return value are the
+model's. -/
+theorem C07_source_events (v : Callback α α) (s : PSet α) (op : Op α)
+    (items : PSet α) (r : Model.PyLM.S.SRet α) (evs : List (SEvent α))
+    (h : Model.PyLM.S.runTraitSetOp Generated.traitSetProg v s op = .done items r evs) :
+    ∃ o, TraitSet.step v s op = .ok o ∧ items = o.items ∧ r = Model.PyLM.S.retOf op o.ret ∧
+      evs = o.event.toList := by
+  rw [C07_step_is_source] at h
+  cases hs : TraitSet.step v s op with
+  | error e' => simp [Model.PyLM.S.summaryOfStep, hs] at h
+  | ok o =>
+    simp only [Model.PyLM.S.summaryOfStep, hs, Model.PyLM.S.Summary.done.injEq] at h
+    exact ⟨o, rfl, h.1.symm, h.2.1.symm, h.2.2.symm⟩
+
+/-- `TraitSetObject` overrides no mutator (so the `Set` trait's object runs the
+`TraitSet` methods above), and `notify` takes `(removed, added)`. -/
+theorem C07_source_object_overrides_none :
+    Generated.traitSetObjectProg = [] ∧ Generated.traitSetNotifyParams = ["removed", "added"] := by decide
+
+/-- Non-vacuity: the interpreted source on the F24 input and on a `&=` with a
+list operand (`NotImplemented`, hence `TypeError`, nothing changed). -/
+example :
+    Model.PyLM.S.runTraitSetOp Generated.traitSetProg KAtom.intV [KAtom.int 3] (.ixor true [KAtom.str 3]) =
+      .done [KAtom.int 3] .self [] ∧
+    Model.PyLM.S.runTraitSetOp Generated.traitSetProg KAtom.intV [KAtom.int 3] (.iand false [KAtom.int 3]) =
+      .raised .typeError [KAtom.int 3] [] := by
+  rw [C07_step_is_source, C07_step_is_source]; exact ⟨rfl, rfl⟩
 
 /-! ### Tie to the source: the mutators that exist are the mutators modelled -/
 
